@@ -41,6 +41,10 @@ def run(db, rep, tier):
                                   "that header_size() counts equals the selector-dependent bytes write_serialization writes for that "
                                   "enumerator (both sides executed per enumerator; a missing arm writes 0)", 3)
     r8(db, rep)
+    rep.rule("R9-header-end", "a parser that walks options up to an end-of-header pointer leaves the loop with its cursor AT that pointer: an "
+                              "early `break` (end-of-list option) either verifies the cursor is there or skips the padding up to it - the "
+                              "payload is taken from the cursor", 2)
+    r9_header_end(db, rep)
     rep.rule("R1-size-balance", "(C02.R1, re-run here because a serialiser that writes more than its size function counts overwrites the next "
                                 "layer: the serialization no longer parses back to the same packet)", 90)
     from rules import c02
@@ -487,6 +491,81 @@ def r8(db, rep):
                                        "lacks its control field and the following bytes are uninitialised" if got < want else "overruns its region"))
     if n < 3:
         rep.analysis_broken("only %d selector-dependent length instances found (LLC's control field expected)" % n)
+
+
+def r9_header_end(db, rep):
+    from vlib import cond, cfg
+    n = 0
+    for fid, f in sorted(db.functions.items()):
+        if not f.get("body") or f.get("kind") != "ctor" or not (f.get("file") or "").startswith(("src/", "include/tins")):
+            continue
+        for w in facts.fn_nodes(f):
+            if w["k"] != "WhileStmt":
+                continue
+            real = [x for x in w["c"] if x is not None]
+            c = facts.strip_all(real[0])
+            if c["k"] != "BinaryOperator" or c.get("op") not in ("<", "!="):
+                continue
+            l, r = facts.strip_all(c["c"][0]), facts.strip_all(c["c"][1])
+            if not (l["k"] == "CXXMemberCallExpr" and l.get("cname") == "pointer" and r["k"] == "DeclRefExpr" and r.get("var")):
+                continue
+            end_var, end_name = r["var"], r.get("name")
+            cur = facts.expr_str(l)
+            g = cfg.FnCFG(f)
+            # breaks that belong to THIS loop (not to a nested loop / switch)
+            def breaks(node, inner=False):
+                out = []
+                for ch in node.get("c", []) or []:
+                    if not isinstance(ch, dict):
+                        continue
+                    if ch["k"] == "BreakStmt":
+                        if not inner:
+                            out.append(ch)
+                    elif ch["k"] in ("WhileStmt", "ForStmt", "DoStmt", "SwitchStmt", "CXXForRangeStmt"):
+                        out += breaks(ch, True)
+                    else:
+                        out += breaks(ch, inner)
+                return out
+            idx, parent = facts.index_fn(f)
+            for b in breaks(real[-1]):
+                n += 1
+                key = "%s:break#%d" % (fid.split("(")[0].replace("Tins::", ""), n)
+                ok = False
+                pb = g.pos(b)
+                if pb is None:      # a break is the terminator of its block, not an element
+                    tb_ = [blk_ for blk_ in g.blocks.values() if blk_.get("term") == b["id"]]
+                    pb = (tb_[0]["id"], len(tb_[0]["e"])) if tb_ else None
+                if pb is None:
+                    rep.analysis_broken("%s: break at line %s has no CFG position" % (key, b.get("l")))
+                    continue
+                for op, a_, b_ in cond.guards_facts(g, pb):
+                    if op == "==" and b_ is not None:
+                        ta, tb = facts.expr_str(a_), facts.expr_str(b_)
+                        if (ta == cur and facts.strip_all(b_).get("var") == end_var) or (tb == cur and facts.strip_all(a_).get("var") == end_var):
+                            ok = True
+                how = "dominated by `%s == %s`" % (cur, end_name)
+                if not ok:
+                    # ... or the statement before the break moves the cursor there: cursor.skip(END - cursor.pointer())
+                    blk = parent.get(b["id"])
+                    kids = [x for x in (blk.get("c") or []) if isinstance(x, dict)] if blk else []
+                    i = [id(x) for x in kids].index(id(b)) if blk and id(b) in [id(x) for x in kids] else -1
+                    if i > 0:
+                        prev = facts.strip_all(kids[i - 1])
+                        if prev["k"] == "CXXMemberCallExpr" and prev.get("cname") == "skip" and len(prev["c"]) == 2:
+                            a_ = facts.strip_all(prev["c"][1])
+                            if a_["k"] == "BinaryOperator" and a_.get("op") == "-" and facts.strip_all(a_["c"][0]).get("var") == end_var and \
+                                    facts.expr_str(a_["c"][1]) == cur:
+                                ok = True
+                                how = "preceded by `skip(%s - %s)`" % (end_name, cur)
+                if ok:
+                    rep.ok("R9-header-end", key, facts.loc(f, b), how)
+                else:
+                    rep.violation("R9-header-end", key, facts.loc(f, b),
+                                  "the option loop is left early with the cursor possibly short of `%s`: what follows takes the payload from the "
+                                  "cursor, so padding octets after an end-of-list option are parsed as payload, the payload is cut short by the "
+                                  "same amount, and serialising the result does not give the packet back" % end_name)
+    if n < 2:
+        rep.analysis_broken("expected the early exits of the IP and TCP option loops, found %d" % n)
 
 
 def r6(db, rep):
